@@ -19,6 +19,7 @@ from __future__ import annotations
 import builtins
 import errno
 import io
+import json
 import os
 import random
 import shutil
@@ -1447,11 +1448,31 @@ class LoadWorld:
         self.disk.write_bytes("in", data)
         self.size = len(data)
         self.parsed = None
+        # a second file of the same shape (same resolution, track count, number of messages and length per track), one note
+        # moved: "another take of the same piece", loaded in the same process
+        self.file2 = init.get("file2")
+        self.parsed2 = None
+        if self.file2 is not None:
+            f2 = self.file2
+            self.disk.write_bytes("in2", write_smf_mido(f2["tpb"], f2["tracks"]) if f2["writer"] == "mido"
+                                  else write_smf_raw(f2["tpb"], f2["tracks"]))
+            self.stats["reach_load/runs_with_a_sibling_file"] += 1
         self.stats[f"reach_writer/{f['writer']}"] += 1
         self.stats[f"reach_tpb/{f['tpb']}"] += 1
 
     def apply(self, ev, idx):
         f = self.file
+        name = "in"
+        if ev.get("which") and self.file2 is not None:
+            f, name = self.file2, "in2"
+            self.parsed, self.parsed2 = self.parsed2, self.parsed      # each file has its own parsed object
+            try:
+                return self._apply(ev, idx, f, name)
+            finally:
+                self.parsed, self.parsed2 = self.parsed2, self.parsed
+        return self._apply(ev, idx, f, name)
+
+    def _apply(self, ev, idx, f, name):
         if ev.get("regroup"):
             # the same file (and, on the midi_file / convert routes, the same parsed object) asked for under another grouping:
             # what a conversion returns must depend on its arguments and on the file, not on what was asked before
@@ -1473,18 +1494,18 @@ class LoadWorld:
                     # parse once, convert through sequences_load(midi_file=...) - possibly a second time on the same object
                     if self.parsed is None:
                         from scoda.midi.midi_file import MidiFile
-                        self.parsed = MidiFile.open(self.disk.path("in"))
+                        self.parsed = MidiFile.open(self.disk.path(name))
                     seqs = Sequence.sequences_load(midi_file=self.parsed, track_indices=ti, meta_track_indices=mi,
                                                    target_meta_track_index=f["target"])
                 elif route == "convert" and ti is not None and mi is not None:
                     from scoda.midi.midi_file import MidiFile
                     if self.parsed is None:
-                        self.parsed = MidiFile.open(self.disk.path("in"))
+                        self.parsed = MidiFile.open(self.disk.path(name))
                     seqs = self.parsed.convert(ti, mi, f["target"])
                 elif route == "positional":
-                    seqs = Sequence.sequences_load(self.disk.path("in"), None, ti, mi, f["target"])
+                    seqs = Sequence.sequences_load(self.disk.path(name), None, ti, mi, f["target"])
                 else:
-                    seqs = Sequence.sequences_load(file_path=self.disk.path("in"), track_indices=ti, meta_track_indices=mi,
+                    seqs = Sequence.sequences_load(file_path=self.disk.path(name), track_indices=ti, meta_track_indices=mi,
                                                    target_meta_track_index=f["target"])
         except core.RunTimeout:
             raise
@@ -1534,6 +1555,37 @@ ENDURANCE = {"quick": 4, "thorough": 64}
 ENDURANCE_SIZES = {"quick": (45000, 60000), "thorough": (60000, 90000, 110000)}
 
 
+def gen_sibling_file(rng, f):
+    """Same file with ONE note moved (both its events, by the same number of ticks, staying inside its track and keeping the
+    order of the track's last event): equal resolution, track count, message counts and track lengths, different deltas.
+    Only a note whose (channel, pitch) occurs once in the file is moved, so that none of the generator's spacing rules can be
+    broken. None if there is no such note."""
+    count = {}
+    for tr in f["tracks"]:
+        for e in tr:
+            if e["k"] == "on":
+                count[(e["ch"], e["pitch"])] = count.get((e["ch"], e["pitch"]), 0) + 1
+    cands = []
+    for ti, tr in enumerate(f["tracks"]):
+        last = max((e["tick"] for e in tr), default=0)
+        for j, e in enumerate(tr):
+            if e["k"] == "on" and not e.get("unison") and not e.get("noise") and count[(e["ch"], e["pitch"])] == 1:
+                offs = [k for k in range(j + 1, len(tr)) if tr[k]["k"] == "off" and tr[k]["ch"] == e["ch"] and tr[k]["pitch"] == e["pitch"]]
+                if offs and tr[offs[0]]["tick"] < last:
+                    cands.append((ti, j, offs[0], last - tr[offs[0]]["tick"]))
+    if not cands:
+        return None
+    ti, j, k, room = cands[rng.randrange(len(cands))]
+    d = rng.randrange(1, room + 1) if rng.random() < 0.5 else min(room, rng.choice([1, 2, 3, f["tpb"] // 4 + 1]))
+    f2 = json.loads(json.dumps(f))
+    tr = f2["tracks"][ti]
+    tr[j]["tick"] += d
+    tr[k]["tick"] += d
+    order = {"ts": 0, "ks": 1, "pc": 2, "other": 2, "off": 3, "on": 4}
+    tr.sort(key=lambda e: (e["tick"], order[e["k"]]))
+    return f2
+
+
 def gen_regroup(rng, f):
     """Another grouping of the same file that never puts tracks of two different note owners into one group (the notes of one
     owner are generated free of overlaps per (channel, pitch); across owners they are not): every original group is kept,
@@ -1578,13 +1630,19 @@ def c13_run_one(seed, tier, index):
     else:
         f = gen_c13_file(rng, tier)
     init = {"file": f}
+    if lane != "neartie" and rng.random() < 0.15:
+        f2 = gen_sibling_file(rng, f)
+        if f2 is not None:
+            init["file2"] = f2
     world = LoadWorld(init)
     events = []
     viol = None
-    for k in range(1 if lane == "neartie" else rng.choice([1, 1, 2]) if lane == "baseline" else rng.choice([1, 2, 3])):
+    for k in range(rng.choice([2, 3]) if "file2" in init else 1 if lane == "neartie" else rng.choice([1, 1, 2]) if lane == "baseline" else rng.choice([1, 2, 3])):
         ev = {"op": "load", "plan": {"kind": "none", "buf": 8192} if lane in ("baseline", "neartie") else gen_plan(rng, "r", world.size),
               "route": rng.choice(["path", "path", "path", "midi_file", "midi_file", "convert", "positional"])}
-        if k > 0 and rng.random() < 0.6:
+        if "file2" in init:
+            ev["which"] = k % 2 if rng.random() < 0.8 else rng.randrange(2)
+        if k > 0 and rng.random() < 0.6 and "file2" not in init:
             ev["regroup"] = gen_regroup(rng, f)
             ev["route"] = rng.choice(["midi_file", "midi_file", "convert", "path"])
         events.append(ev)
